@@ -320,6 +320,8 @@ pub fn exec(world: &mut World, op: &Value) -> String {
         "inc" => pb!().inc(n),
         "dec" => pb!().dec(n),
         "set_position" => pb!().set_position(n),
+        // a seek through the Seek adaptor (wrap_read over a cursor): the bar is moved to the new offset
+        "seek_to" => { use std::io::Seek; let mut w = pb!().wrap_read(std::io::Cursor::new(vec![0u8; 64])); let _ = w.seek(std::io::SeekFrom::Start(n)); }
         "set_length" => pb!().set_length(n),
         "unset_length" => pb!().unset_length(),
         "inc_length" => pb!().inc_length(n),
